@@ -411,6 +411,16 @@ func c05Batch(batchID int, seed uint64, n int) {
 			if err == nil {
 				c.SendPacket(&rc.Packet{Type: rc.SUBSCRIBE, ID: 1, Filters: [][]byte{[]byte("wit/#")}, QoSs: []byte{byte(r.Intn(3))}})
 				c.WaitFor(func(l []rawclient.Event, closed bool) bool { return countType(l, rc.SUBACK) == 1 }, 5*time.Second)
+				// a second bystander subscribes AFTER the dying client, so it comes later in the broker's
+				// subscriber list: a delivery error on the dying one must not cost it any message
+				late, lerr := b.connect(uniqueCID("late"), connectOpts{Clean: true, KeepAlive: 600})
+				if lerr == nil {
+					late.SendPacket(&rc.Packet{Type: rc.SUBSCRIBE, ID: 1, Filters: [][]byte{[]byte("wit/#")}, QoSs: []byte{1}})
+					late.WaitFor(func(l []rawclient.Event, closed bool) bool { return countType(l, rc.SUBACK) == 1 }, 5*time.Second)
+				}
+				wmu.Lock()
+				from := wseq
+				wmu.Unlock()
 				done := make(chan struct{})
 				go func() {
 					defer close(done)
@@ -424,6 +434,32 @@ func c05Batch(batchID int, seed uint64, n int) {
 					return
 				}
 				<-done
+				if lerr == nil {
+					// the late bystander must hold exactly from+1 .. from+40
+					late.SendPacket(&rc.Packet{Type: rc.PINGREQ})
+					late.WaitFor(func(l []rawclient.Event, closed bool) bool { return countType(l, rc.PINGRESP) >= 1 }, 10*time.Second)
+					var seen []uint32
+					for _, e := range late.Log() {
+						if e.P.Type == rc.PUBLISH {
+							if _, s, ok := spec.ParsePayload(e.P.Payload); ok {
+								seen = append(seen, s)
+							}
+						}
+					}
+					okSeq := len(seen) == 40
+					for i, s := range seen {
+						if s != from+uint32(i)+1 {
+							okSeq = false
+						}
+					}
+					late.Close()
+					if !okSeq {
+						out.Violation("c05:bystander-missed-messages", fmt.Sprintf("%s: a bystander that subscribed after the dying client received %d of the 40 witness messages published while it was torn down: %v", a.name, len(seen), seen), nil)
+						out.End()
+						return
+					}
+					out.Count("c05.late_bystander_rounds", 1)
+				}
 			}
 		case "disc/stopped-reading":
 			c, err := b.connect(uniqueCID("stuck"), connectOpts{Clean: true, KeepAlive: 600})
